@@ -1,0 +1,68 @@
+//go:build verif
+// +build verif
+
+package evm
+
+import "time"
+
+// Verification shim (build tag "verif").
+
+// VerifSetValidateRoutines sets the number of signature-checking goroutines
+// used by the block executor (normally runtime.NumCPU()).
+func VerifSetValidateRoutines(n int) { validateRoutineCount = n }
+
+// VerifValidateRoutines returns the current worker count.
+func VerifValidateRoutines() int { return validateRoutineCount }
+
+// VerifPoolCounts reports the sizes of the pool's internal collections.
+type VerifPoolCounts struct {
+	Pending, Waiting, All, Ext, Broadcast int
+	PendingLimit, WaitingLimit            int
+}
+
+// VerifPoolCounts returns the sizes of the tx pool's collections.
+func (app *EVMApp) VerifPoolCounts() VerifPoolCounts {
+	tp := app.pool
+	tp.Lock()
+	defer tp.Unlock()
+	c := VerifPoolCounts{
+		All:          len(tp.all),
+		Ext:          tp.extTxs.Len(),
+		Broadcast:    tp.broadcastQueue.Len(),
+		PendingLimit: tp.pendingLimit,
+		WaitingLimit: tp.waitingLimit,
+	}
+	for _, m := range tp.pending {
+		c.Pending += m.Len()
+	}
+	for _, m := range tp.waiting {
+		c.Waiting += m.Len()
+	}
+	return c
+}
+
+// VerifSetWaitingLifetime shortens the eviction lifetime of waiting txs.
+func (app *EVMApp) VerifSetWaitingLifetime(d time.Duration) {
+	app.pool.Lock()
+	app.pool.waitingLifeTime = d
+	app.pool.Unlock()
+}
+
+// VerifEvictOnce runs one pass of the eviction loop body.
+func (app *EVMApp) VerifEvictOnce() {
+	tp := app.pool
+	tp.Lock()
+	for addr := range tp.waitingBeats {
+		if time.Since(tp.waitingBeats[addr]) > tp.waitingLifeTime {
+			if tp.waiting[addr].Get(tp.safeGetNonce(addr)) != nil {
+				continue
+			}
+			for _, tx := range tp.waiting[addr].Flatten() {
+				delete(tp.all, tx.Hash())
+			}
+			delete(tp.waitingBeats, addr)
+			delete(tp.waiting, addr)
+		}
+	}
+	tp.Unlock()
+}
